@@ -167,6 +167,9 @@ func (x *World) compareWorld(ref *model.Model, skip *skipVal, typed bool) *Viola
 			if has != e.Comps.Has(c) {
 				return x.viol("comps", "Has(#%d %v, %s)=%v, model says %v", i, h, c, has, e.Comps.Has(c))
 			}
+			if hu := u.HasUnchecked(h, id); hu != has {
+				return x.viol("comps", "HasUnchecked(#%d %v, %s)=%v but Has=%v for an alive entity", i, h, c, hu, has)
+			}
 			var sm api.Mapper
 			if typed {
 				sm = x.singleMapper(c)
@@ -185,6 +188,9 @@ func (x *World) compareWorld(ref *model.Model, skip *skipVal, typed bool) *Viola
 			p := u.Get(h, id)
 			if p == nil {
 				return x.viol("value", "Unsafe.Get(#%d,%s) returned nil", i, c)
+			}
+			if pu := u.GetUnchecked(h, id); pu != p {
+				return x.viol("value", "Unsafe.GetUnchecked(#%d,%s)=%p differs from Unsafe.Get=%p", i, c, pu, p)
 			}
 			if typed {
 				if p2 := sm.Get(h)[0]; p2 != p {
@@ -209,9 +215,15 @@ func (x *World) compareWorld(ref *model.Model, skip *skipVal, typed bool) *Viola
 				if !got.IsZero() && !x.W.Alive(got) {
 					return x.viol("relation", "entity #%d %v relation %s targets dead entity %v", i, h, c, got)
 				}
+				if gu := u.GetRelationUnchecked(h, id); gu != got {
+					return x.viol("relation", "Unsafe.GetRelationUnchecked(#%d,%s)=%v but GetRelation=%v", i, c, gu, got)
+				}
 				if typed {
 					if g2 := sm.GetRelation(h, c); g2 != got {
 						return x.viol("relation", "Map[%s].GetRelation(#%d)=%v but Unsafe.GetRelation=%v", c, i, g2, got)
+					}
+					if g3 := sm.GetRelationUnchecked(h, c); g3 != got {
+						return x.viol("relation", "Map[%s].GetRelationUnchecked(#%d)=%v but Unsafe.GetRelation=%v", c, i, g3, got)
 					}
 				}
 			}
